@@ -211,21 +211,52 @@ def _limit(mem_gb):
     return f
 
 
+def _group_rss_mb(pgid):
+    tot = 0
+    try:
+        for d in os.listdir("/proc"):
+            if not d.isdigit():
+                continue
+            try:
+                with open(f"/proc/{d}/stat") as f:
+                    st = f.read()
+                rp = st.rindex(")")
+                fields = st[rp + 2:].split()
+                if int(fields[2]) != pgid:  # pgrp
+                    continue
+                tot += int(fields[21]) * 4096  # rss pages
+            except (OSError, ValueError, IndexError):
+                continue
+    except OSError:
+        pass
+    return tot / (1 << 20)
+
+
+PEAK = {}
+
+
 def run_proc(cmd, env, log_path, timeout, mem_gb, cwd=REPO):
     t0 = time.time()
+    peak = 0.0
     with open(log_path, "w") as lf:
         p = subprocess.Popen(cmd, cwd=cwd, env=env, stdout=lf, stderr=subprocess.STDOUT, preexec_fn=_limit(mem_gb))
         timed_out = False
-        try:
-            p.wait(timeout=timeout)
-        except subprocess.TimeoutExpired:
-            timed_out = True
+        while True:
+            try:
+                p.wait(timeout=3)
+                break
+            except subprocess.TimeoutExpired:
+                peak = max(peak, _group_rss_mb(p.pid))
+                if time.time() - t0 > timeout:
+                    timed_out = True
+                    break
         # always reap the whole process group (cbmc children outlive cargo-kani)
         try:
             os.killpg(p.pid, signal.SIGKILL)
         except ProcessLookupError:
             pass
         p.wait()
+    PEAK[log_path] = round(peak)
     return p.returncode, timed_out, time.time() - t0
 
 
@@ -248,6 +279,7 @@ def classify(h, rc, timed_out, wall, json_out, log_path):
         "covers_total": 0,
         "stats": {},
         "log": log_path,
+        "peak_rss_mb": PEAK.get(log_path),
     }
     log = ""
     try:
@@ -481,7 +513,7 @@ def schedule(harnesses, jobs, tier, mem_total_gb=54):
             state["mem"] -= h["mem"]
             state["running"] -= 1
             lock.notify_all()
-        sys.stderr.write(f"  [{r['verdict']:>12}] {h['name']} {r.get('wall_s',0)}s {r.get('reason','')}\n")
+        sys.stderr.write(f"  [{r['verdict']:>12}] {h['name']} {r.get('wall_s',0)}s rss={r.get('peak_rss_mb')}MB {r.get('reason','')}\n")
 
     threads = []
     with lock:
@@ -623,6 +655,7 @@ def write_evidence(prop, tier, seed, sel, results, confirmed, known_hits, inconc
                 "covers_satisfied": f"{r.get('covers_satisfied',0)}/{r.get('covers_total',0)}",
                 "solver_stats": r.get("stats", {}),
                 "wall_s": r.get("wall_s"),
+                "peak_rss_mb": r.get("peak_rss_mb"),
                 "cap": {"timeout_s": h["timeout"], "mem_gb": h["mem"]},
             }
         )
